@@ -118,41 +118,72 @@ func lenClass(n int) string {
 	return "67..1022"
 }
 
-// CMarshal
-func runMarshal(ws [16]uint64, gen string) vh.Case {
+// one Marshal -> Unmarshal-into-a-fresh-bitmap observation
+type marshalObs struct {
+	ws     [16]uint64
+	bytes  []byte
+	p1, p2 bool
+	uerr   error
+	fresh  bm.Bit1024
+}
+
+func observeMarshal(ws [16]uint64) marshalObs {
+	o := marshalObs{ws: ws, fresh: bm.NewBit1024()}
 	b := bitmapOf(ws)
-	n := b.Len()
-	var bytes []byte
-	var uerr error
-	fresh := bm.NewBit1024()
-	p1 := guard(func() { bytes = b.Marshal() })
-	p2 := false
-	if !p1 {
-		p2 = guard(func() { uerr = fresh.Unmarshal(bytes) })
+	o.p1 = guard(func() { o.bytes = b.Marshal() })
+	if !o.p1 {
+		o.p2 = guard(func() { o.uerr = o.fresh.Unmarshal(o.bytes) })
 	}
+	return o
+}
+
+func (o marshalObs) roundTripOK() bool {
+	return !o.p1 && !o.p2 && o.uerr == nil && o.fresh.Equal(bitmapOf(o.ws))
+}
+
+func (o marshalObs) toCase(gen, class string) vh.Case {
+	b := bitmapOf(o.ws)
+	n := b.Len()
 	var bcoq, r, rdesc string
 	switch {
-	case p1:
+	case o.p1:
 		bcoq, r, rdesc = "(zc (-1) zn)", "UPanic", "Marshal panicked"
-	case p2:
-		bcoq, r, rdesc = zbytes(bytes), "UPanic", "Unmarshal panicked"
-	case uerr != nil:
-		bcoq, r, rdesc = zbytes(bytes), "UErr", "error: "+uerr.Error()
+	case o.p2:
+		bcoq, r, rdesc = zbytes(o.bytes), "UPanic", "Unmarshal panicked"
+	case o.uerr != nil:
+		bcoq, r, rdesc = zbytes(o.bytes), "UErr", "error: "+o.uerr.Error()
 	default:
-		bcoq, r, rdesc = zbytes(bytes), "(UOk "+words(fresh)+")", "ok"
+		bcoq, r, rdesc = zbytes(o.bytes), "(UOk "+words(o.fresh)+")", "ok"
 	}
 	rp := make([]string, 16)
-	for i, w := range ws {
+	for i, w := range o.ws {
 		rp[i] = strconv.FormatUint(w, 16)
 	}
+	if class == "" {
+		class = "marshal/len=" + lenClass(n)
+	}
+	desc := map[string]interface{}{"kind": "Marshal then Unmarshal into a fresh bitmap", "gen": gen, "members": n, "words_hex": rp,
+		"marshal_len": len(o.bytes), "unmarshal": rdesc, "roundtrip_equal": o.roundTripOK()}
+	if n < 64 && !o.p1 {
+		desc["marshal_bytes_hex"] = fmt.Sprintf("%x", o.bytes)
+		if !o.p2 && o.uerr == nil {
+			var got, want []int16
+			got, want = o.fresh.GetNAsI16(1024), b.GetNAsI16(1024)
+			desc["members_of_bitmap"], desc["members_denoted_by_bytes"] = want, got
+		}
+	}
 	return vh.Case{
-		Coq:        fmt.Sprintf("(CMarshal %s %s %s)", words(bitmapOf(ws)), bcoq, r),
-		Class:      "marshal/len=" + lenClass(n),
+		Coq:        fmt.Sprintf("(CMarshal %s %s %s)", words(b), bcoq, r),
+		Class:      class,
 		Nontrivial: n > 0,
 		Replay:     "marshal:" + strings.Join(rp, ","),
-		Desc: map[string]interface{}{"kind": "Marshal then Unmarshal into a fresh bitmap", "gen": gen, "members": n, "words_hex": rp,
-			"marshal_len": len(bytes), "unmarshal": rdesc, "roundtrip_equal": !p1 && !p2 && uerr == nil && fresh.Equal(b)},
+		Desc:       desc,
 	}
+}
+
+// CMarshal
+func runMarshal(ws [16]uint64, gen string) vh.Case {
+	return observeMarshal(ws).toCase(gen, "")
 }
 
 var unmLens = map[int]int{} // byte-string lengths exercised
@@ -1091,11 +1122,17 @@ func main() {
 		if want("tip") {
 			g.genTip(emit)
 		}
+		if want("topbit") {
+			g.genTopBit(emit)
+		}
 		if want("bigs") {
 			g.genLists(false, emit)
 		}
 		if want("tips") {
 			g.genLists(true, emit)
+		}
+		if want("conc") {
+			g.genConcurrent(emit)
 		}
 		e.Meta["cases_by_kind"] = kinds
 		all := true
